@@ -108,7 +108,8 @@ pub open spec fn extent_of(bb: BoundingBox, border: real) -> (real, real, real, 
     (rfloor(val(bb.x1) - border), rfloor(val(bb.y1) - border), rceil(val(bb.x2) + border), rceil(val(bb.y2) + border))
 }
 pub open spec fn orig_attrs(ev: OutputEvent) -> Map<Seq<char>, Seq<char>> {
-    match ev { OutputEvent::Start(e) => e.attrs@, _ => Map::<Seq<char>, Seq<char>>::empty() }
+    // the author's root element, whether written `<svg ..>` or `<svg ../>`
+    match ev { OutputEvent::Start(e) => e.attrs@, OutputEvent::Empty(e) => e.attrs@, _ => Map::<Seq<char>, Seq<char>>::empty() }
 }
 
 impl Transformer {
